@@ -53,8 +53,8 @@ func Open(r io.ReaderAt, size int64) (*XAR, error) {
 		heap:     io.NewSectionReader(r, base, 1<<62),
 	}
 	if toc.Signature != nil {
-		s.ClassicSignature = make([]byte, toc.Signature.Size)
-		if _, err := r.ReadAt(s.ClassicSignature, base+toc.Signature.Offset); err != nil {
+		s.ClassicSignature, err = readHeap(r, size, base, toc.Signature.Offset, toc.Signature.Size)
+		if err != nil {
 			return nil, fmt.Errorf("reading signature: %w", err)
 		}
 		s.Certificates, err = parseCertificates(toc.Signature)
@@ -63,8 +63,8 @@ func Open(r io.ReaderAt, size int64) (*XAR, error) {
 		}
 	}
 	if toc.XSignature != nil {
-		s.CMSSignature = make([]byte, toc.XSignature.Size)
-		if _, err := r.ReadAt(s.CMSSignature, base+toc.XSignature.Offset); err != nil {
+		s.CMSSignature, err = readHeap(r, size, base, toc.XSignature.Offset, toc.XSignature.Size)
+		if err != nil {
 			return nil, fmt.Errorf("reading CMS signature: %w", err)
 		}
 	}
@@ -77,6 +77,19 @@ func Open(r io.ReaderAt, size int64) (*XAR, error) {
 		s.NotaryTicket = ticket
 	}
 	return s, nil
+}
+
+// read an item from the heap after checking that the offset and length given
+// by the TOC lie within the file
+func readHeap(r io.ReaderAt, fileSize, base, offset, length int64) ([]byte, error) {
+	if base < 0 || base > fileSize || offset < 0 || offset > fileSize-base || length < 0 || length > fileSize-base-offset {
+		return nil, errors.New("heap offset is outside of the file")
+	}
+	buf := make([]byte, length)
+	if _, err := r.ReadAt(buf, base+offset); err != nil {
+		return nil, err
+	}
+	return buf, nil
 }
 
 func parseHeader(r io.Reader) (hdr fileHeader, hashType crypto.Hash, err error) {
